@@ -152,8 +152,10 @@ def launch(
         control_thread.run()  # Blocking until shutdown or KeyboardInterrupt
     except KeyboardInterrupt:
         logger.info("Keyboard Interrupt detected, shutting down system")
-    except Exception as e:
-        logger.error(f"Error during system execution: {e}", exc_info=True)
+    except Exception:
+        # The traceback carries the exception; formatting it here could itself raise
+        # (a user exception with a faulty `__str__`) and replace what is propagated.
+        logger.exception("Error during system execution.")
         raise
     finally:
         # Whatever ended the run - also an interrupt that arrived while the threads were
